@@ -15,6 +15,7 @@ namespace {
 struct Val { std::string type; uint64_t bits; };
 std::vector<Val> g_vec; size_t g_pos = 0; int g_failed = 0;
 uint64_t next(const char *type) {
+  while (g_pos < g_vec.size() && g_vec[g_pos].type[0] == 'm') g_pos++;   // values consumed by models in the encoding
   if (g_pos >= g_vec.size()) { printf("DIVERGED vector exhausted at %zu (%s)\n", g_pos, type); fflush(stdout); _exit(12); }
   const Val &v = g_vec[g_pos++];
   if (v.type != type) { printf("DIVERGED type mismatch at %zu: want %s have %s\n", g_pos - 1, type, v.type.c_str()); fflush(stdout); _exit(12); }
@@ -49,6 +50,7 @@ int main(int argc, char **argv) {
   void (*fn)() = (void (*)())dlsym(RTLD_DEFAULT, argv[1]);
   if (!fn) { printf("no entry %s\n", argv[1]); return 13; }
   fn();
+  while (g_pos < g_vec.size() && g_vec[g_pos].type[0] == 'm') g_pos++;
   printf("END consumed=%zu of %zu failed=%d\n", g_pos, g_vec.size(), g_failed);
   fflush(stdout);
   _exit(g_failed ? 10 : 0);
